@@ -386,7 +386,7 @@ func (g *Gen) famOp(fam string) *Op {
 
 // ---- element pools: small universes so that operations collide ----
 
-var elemPool = []string{"a", "b", "c", "", "a\x00", "10", "\xff"}
+var elemPool = []string{"a", "b", "c", "", "a\x00", "10", "\xff", "A"}
 
 func (g *Gen) elem() Value {
 	e := g.elemP[g.pick(3)]
@@ -509,11 +509,14 @@ var pat2Pool = []string{"*", "a*", "?", "[ab]", "[^a]", "b", "", "*0"}
 
 func (g *Gen) pattern2() string { return g.pat2P[g.pick(len(g.pat2P))] }
 
-var fieldPool = []string{"f1", "f2", "f3", ""}
+var fieldPool = []string{"f1", "f2", "f3", "", "F1"}
 
 func (g *Gen) field() string {
 	if g.chance(0.1) {
 		return g.fieldP[3]
+	}
+	if len(g.fieldP) > 4 && g.chance(0.08) {
+		return g.fieldP[4] // a name that differs from another one only in letter case
 	}
 	return g.fieldP[g.pick(3)]
 }
@@ -589,11 +592,14 @@ func (g *Gen) score() float64 {
 	return scorePool[g.pick(len(scorePool))]
 }
 
-var memberPool = []string{"a", "b", "c", "d"}
+var memberPool = []string{"a", "b", "c", "d", "A"}
 
 func (g *Gen) member() Value {
 	if g.chance(0.08) {
 		return g.elem()
+	}
+	if len(g.memberP) > 4 && g.chance(0.08) {
+		return VStr(g.memberP[4]) // differs from another member only in letter case
 	}
 	return VStr(g.memberP[g.pick(4)])
 }
